@@ -116,7 +116,7 @@ func genGWMix(g *Gen, weird float64, tag string) *Plan {
 	for i := 0; i < np; i++ {
 		cids = append(cids, fmt.Sprintf("c%d", i+1))
 	}
-	cfg.Predefined = g.Predef(cids)
+	cfg.Predefined = g.PredefWithFilters(cids)
 	p := &Plan{Family: tag, Cfg: cfg}
 	var end int64
 	for i := 0; i < np; i++ {
